@@ -37,7 +37,7 @@ package template
 //@     decreases[C01] len(s) + 1 - i
 
 //@ func partition
-//@   except index#1, index#2 : undischarged on the reference tree (engine limit or missing callee contract), not claimed
+//@   except index@24ee54#1, index@24ee54#2 : undischarged on the reference tree (engine limit or missing callee contract), not claimed
 //@   nopanic[C01,C07]
 //@?  ensures[C07] pieces(s) ==> pieces(result.0) && pieces(result.1)     // same reason
 //@?  ensures[C07] contains(s, sep) ==> result.0 == s[0:sindex(s, sep)] && result.1 == s[sindex(s, sep)+len(sep):len(s)]     // engine: strings.SplitN(s, sep, 2) is modelled exactly only for a literal sep
@@ -45,12 +45,12 @@ package template
 //@   ensures[C07] !contains(s, sep) ==> result.0 == s && result.1 == ""
 
 //@ func matchGroups
-//@   except index#2, slice#1 : undischarged on the reference tree (engine limit or missing callee contract), not claimed
+//@   except index@8b9c05#1, slice@6240ac#1 : undischarged on the reference tree (engine limit or missing callee contract), not claimed
 //@   nopanic[C01,C07]
 //@   ensures result != nil
 
 //@ func withDefaultWhenAbsence
-//@   except nilrecv#1, precondition#3, precondition#4 : undischarged on the reference tree (engine limit or missing callee contract), not claimed
+//@   except nilrecv@aca7cd#1, precondition@58e9b8#2, precondition#4 : undischarged on the reference tree (engine limit or missing callee contract), not claimed
 //@   nopanic[C01,C07]
 //@?  ensures[C07] emptyOrUnset && contains(substitution, ":-") && !SE(sfx(substitution, ":-"), mapping, DefaultPattern) ==> err == nil && result.1 && result.0 == ite(!mok(mapping, pfx(substitution, ":-")) || mval(mapping, pfx(substitution, ":-")) == "", S(sfx(substitution, ":-"), mapping, DefaultPattern), mval(mapping, pfx(substitution, ":-")))     // engine: the result of a call through a function-typed parameter (mapping) cannot be named in a clause, and regexp.ReplaceAllStringFunc(closure) has no model, so S/SE/mval/mok cannot be tied to the code
 //@?  ensures[C07] !emptyOrUnset && contains(substitution, "-") && !SE(sfx(substitution, "-"), mapping, DefaultPattern) ==> err == nil && result.1 && result.0 == ite(!mok(mapping, pfx(substitution, "-")), S(sfx(substitution, "-"), mapping, DefaultPattern), mval(mapping, pfx(substitution, "-")))     // same
@@ -64,7 +64,7 @@ package template
 //@   ensures[C07] err != nil ==> result.0 == "" && !result.1
 
 //@ func withDefaultWhenPresence
-//@   except nilrecv#1, precondition#3, precondition#4 : undischarged on the reference tree (engine limit or missing callee contract), not claimed
+//@   except nilrecv@aca7cd#1, precondition@58e9b8#2, precondition#4 : undischarged on the reference tree (engine limit or missing callee contract), not claimed
 //@   nopanic[C01,C07]
 //@?  ensures[C07] notEmpty && contains(substitution, ":+") && !SE(sfx(substitution, ":+"), mapping, DefaultPattern) ==> err == nil && result.1 && result.0 == ite(mok(mapping, pfx(substitution, ":+")) && mval(mapping, pfx(substitution, ":+")) != "", S(sfx(substitution, ":+"), mapping, DefaultPattern), "")     // engine: the result of a call through a function-typed parameter (mapping) cannot be named in a clause, and regexp.ReplaceAllStringFunc(closure) has no model, so S/SE/mval/mok cannot be tied to the code
 //@?  ensures[C07] !notEmpty && contains(substitution, "+") && !SE(sfx(substitution, "+"), mapping, DefaultPattern) ==> err == nil && result.1 && result.0 == ite(mok(mapping, pfx(substitution, "+")), S(sfx(substitution, "+"), mapping, DefaultPattern), "")     // same; NOTE the code returns mval(...) here, which equals "" only if an unset variable maps to "" (true of every Mapping in the library, not of an arbitrary one)
@@ -77,7 +77,7 @@ package template
 //@   ensures[C07] err != nil ==> result.0 == "" && !result.1
 
 //@ func withRequired
-//@   except nilrecv#1, precondition#3, precondition#4 : undischarged on the reference tree (engine limit or missing callee contract), not claimed
+//@   except nilrecv@aca7cd#1, precondition@79b6f0#2, precondition#4 : undischarged on the reference tree (engine limit or missing callee contract), not claimed
 //@   nopanic[C01,C07]
 //@?  ensures[C07] contains(substitution, sep) && !SE(sfx(substitution, sep), mapping, DefaultPattern) && mok(mapping, pfx(substitution, sep)) && (sep == "?" || mval(mapping, pfx(substitution, sep)) != "") ==> err == nil && result.1 && result.0 == mval(mapping, pfx(substitution, sep))     // engine: the result of a call through a function-typed parameter (mapping) cannot be named in a clause, and regexp.ReplaceAllStringFunc(closure) has no model, so S/SE/mval/mok cannot be tied to the code
 //@?  ensures[C07] contains(substitution, sep) && !SE(sfx(substitution, sep), mapping, DefaultPattern) && (!mok(mapping, pfx(substitution, sep)) || (sep == ":?" && mval(mapping, pfx(substitution, sep)) == "")) ==> err != nil && result.1     // same; that the error carries Variable == pfx(...) and Reason == S(sfx(...)) is not expressible either (no field access on an error value)
@@ -158,13 +158,13 @@ package template
 //@   requires[C07] sourceText(template)
 
 //@ func SubstituteWithOptions
-//@   except nilfunc#1 : undischarged on the reference tree (engine limit or missing callee contract), not claimed
+//@   except nilfunc@c36e83#1 : undischarged on the reference tree (engine limit or missing callee contract), not claimed
 //@   nopanic[C01,C07]
 //@   requires mapping != nil
 //@   requires forall i int :: 0 <= i && i < len(options) ==> options[i] != nil
 
 //@ func SubstituteWithOptions$1
-//@   except nilderef#6, nilderef#9, nilfunc#1, precondition#3 : undischarged on the reference tree (engine limit or missing callee contract), not claimed
+//@   except nilderef@36c067#2, nilderef@ce2e06#3, nilfunc@861f5d#1, precondition@861f5d#3 : undischarged on the reference tree (engine limit or missing callee contract), not claimed
 //@   nopanic[C01,C07]
 //@   requires cfg != nil
 //@   requires mapping != nil
@@ -176,7 +176,7 @@ package template
 //@   requires[C07] pieces(substring)
 
 //@ func DefaultReplacementAppliedFunc
-//@   except nilfunc#1, nilrecv#1, precondition#10, precondition#12, precondition#2, precondition#4, precondition#6, precondition#8 : undischarged on the reference tree (engine limit or missing callee contract), not claimed
+//@   except nilfunc@4e1ff0#1, nilrecv@ab51eb#1, precondition@4e1ff0#10, precondition@4e1ff0#12, precondition@4e1ff0#2, precondition@4e1ff0#4, precondition@4e1ff0#6, precondition@4e1ff0#8 : undischarged on the reference tree (engine limit or missing callee contract), not claimed
 //@   nopanic[C01,C07]
 //@   requires cfg != nil
 //@   requires mapping != nil
@@ -236,5 +236,5 @@ package template
 //@   ensures result != nil
 
 //@ func extractVariable
-//@   except index#2 : undischarged on the reference tree (engine limit or missing callee contract), not claimed
+//@   except index@c225bc#1 : undischarged on the reference tree (engine limit or missing callee contract), not claimed
 //@   nopanic[C01]
